@@ -5,7 +5,7 @@ bounded/C18.py).  Precondition taken from C14's postcondition: the results dicti
 by tower name in configuration order, every tower has n_time results of one shape."""
 import z3
 
-from pyvc import sym, arrays, harness, loops, npshim, values, opaque
+from pyvc import sym, arrays, harness, loops, npshim, values, opaque, frontend
 from pyvc.sym import Num, SBool, SStr, num, ite
 from pyvc.arrays import Arr, Axis
 from pyvc.values import SList, SDict
@@ -126,7 +126,7 @@ def data_state(w, pre, ti, t_in):
     first = lambda tt: (ti > 0) | ((ti == 0) & (tt < t_in))  # noqa: E731
     for name, key in (("ustar_data", "ustar"), ("mol_data", "mol"), ("wind_speed_data", "wind_speed"),
                       ("wind_dir_data", "wind_dir"), ("z0_data", "z0")):
-        if name not in pre:
+        if name not in pre or pre[name] is frontend.UNBOUND:
             continue
         if (key == "ustar" and w.forcing == "z0") or (key == "z0" and w.forcing == "ustar"):
             st[name] = Arr(pre[name].axes, lambda tt: Num(0, True), "float")
@@ -135,8 +135,12 @@ def data_state(w, pre, ti, t_in):
     return st
 
 
+DATA_NAMES = ("flx_data", "conc_data", "ustar_data", "mol_data", "wind_speed_data", "wind_dir_data", "z0_data")
+
+
 class TowerLoop(loops.Constructive):
     props = P
+    state_names = DATA_NAMES
 
     def __init__(self, st):
         self.st = st
@@ -157,6 +161,7 @@ class TowerLoop(loops.Constructive):
 
 class StepLoop(loops.Constructive):
     props = P
+    state_names = DATA_NAMES
 
     def __init__(self, st):
         self.st = st
@@ -175,7 +180,7 @@ def generate(ctx):
             np_ = npshim.NP()
             ns.update({"np": np_, "Path": PathShim, "xr": values.Rec("xr", Dataset=Dataset)})
             f = harness.define(ctx, ns, MOD, "save_footprints_to_netcdf",
-                               loop_specs={"outer:timestamps": TimestampLoop(st), "outer:flx_data": TowerLoop(st), "inner:flx_data": StepLoop(st)})
+                               loop_specs={"outer:timestamps": TimestampLoop(st), "outer:flx_data|nest:1": TowerLoop(st), "inner:flx_data|nest:1.0": StepLoop(st)})
             label = "io.save_footprints_to_netcdf[%s|forcing=%s]" % ("3d" if dim3 else "2d", forcing)
 
             def thunk(run, dim3=dim3, forcing=forcing, f=f, st=st, label=label):
